@@ -5,7 +5,7 @@ import random
 TF_UNITS = {"S": 1, "T": 60, "H": 3600, "D": 86400}
 TF_MULTS = [1, 2, 3, 5, 7, 10, 15, 30, 45]
 
-PRICE_STYLES = ["walk", "walk", "walk", "ints", "flat", "rising", "falling", "zerovol", "repeat", "big", "small", "jumpy"]
+PRICE_STYLES = ["walk", "walk", "walk", "ints", "flat", "rising", "falling", "zerovol", "zerovol", "allzerovol", "repeat", "big", "small", "jumpy", "gappy"]
 TS_STYLES = ["regular", "regular", "dups", "gaps", "biggaps", "mixed", "mixed", "phase"]
 
 
@@ -73,7 +73,10 @@ def gen_prices(rng, n, style=None):
             l = min(l, o, c)
             if l <= 0:
                 l = min(o, c)
-            v = 0 if style == "zerovol" and rng.random() < 0.8 else rng.randint(0, 2000)
+            v = 0 if (style == "allzerovol" or (style == "zerovol" and rng.random() < 0.8)) else rng.randint(0, 2000)
+            if style == "gappy" and rng.random() < 0.3:  # open away from the previous close
+                o = round(max(o * (1 + rng.choice([-0.03, 0.03, 0.01])), scale * 0.001), dec)
+                h, l = max(h, o), min(l, o)
             if rng.random() < 0.05:
                 v = float(v) + rng.choice([0.0, 0.5, 0.25])
         prev = (o, h, l, c, v)
